@@ -16,6 +16,10 @@ def units(tier):
                 continue
             out.append(("script", SIDECARS, H, "readonly_call", f"{fam}.{m}", PROPS, tier,
                         {"family": fam, "method": m}))
+            if m in ("read_setting", "get_grid_export_limit", "get_ongrid_battery_dod", "get_operation_mode"):
+                # the same call on an object that was used for a write before
+                out.append(("script", SIDECARS, H, "readonly_call", f"{fam}.{m}@after_write", PROPS, tier,
+                            {"family": fam, "method": m, "history": True}))
         for case in ("export_limit_negative", "dod_out_of_range", "eco_power_out_of_range", "eco_soc_out_of_range",
                      "unknown_setting"):
             out.append(("script", SIDECARS, H, "invalid_setter", f"{fam}.invalid:{case}", PROPS, tier,
